@@ -64,6 +64,13 @@ class ATimedelta(Abstract):
                 return ATimedelta(mk(a.us - b.us))
             if op == "FloorDiv":
                 return M.mkint(M.py_floordiv(it, a.us, b.us)) if not (isinstance(a.us, int) and isinstance(b.us, int)) else a.us // b.us
+            if op == "Mod":
+                # timedelta % timedelta: the remainder has the sign of the divisor (a constant here), as for ints
+                if isinstance(a.us, int) and isinstance(b.us, int):
+                    return ATimedelta(a.us % b.us)
+                if isinstance(b.us, int) and b.us > 0:
+                    return ATimedelta(zint(a.us) % z3.IntVal(b.us))        # z3 mod with a positive divisor is Python's
+                raise C.Unsupported("timedelta % symbolic or non-positive timedelta")
             return NotImplemented
         ok, i = M.as_int(other)
         if ok and op == "Mult":
